@@ -7,10 +7,12 @@ require (
 	github.com/redis/rueidis/mock v1.0.76
 	github.com/redis/rueidis/om v0.0.0
 	github.com/redis/rueidis/rueidisaside v0.0.0
-	github.com/redis/rueidis/rueidiscompat v0.0.0
+	github.com/redis/rueidis/rueidiscompat v1.0.76
+	github.com/redis/rueidis/rueidiscompatmock v0.0.0
 	github.com/redis/rueidis/rueidishook v0.0.0
 	github.com/redis/rueidis/rueidislimiter v0.0.0
 	github.com/redis/rueidis/rueidisprob v0.0.0
+	go.uber.org/mock v0.6.0
 	pgregory.net/rapid v1.3.0
 	verifkit v0.0.0
 )
@@ -23,6 +25,7 @@ replace (
 	github.com/redis/rueidis/om => /repo/om
 	github.com/redis/rueidis/rueidisaside => /repo/rueidisaside
 	github.com/redis/rueidis/rueidiscompat => /repo/rueidiscompat
+	github.com/redis/rueidis/rueidiscompatmock => /repo/rueidiscompatmock
 	github.com/redis/rueidis/rueidishook => /repo/rueidishook
 	github.com/redis/rueidis/rueidislimiter => /repo/rueidislimiter
 	github.com/redis/rueidis/rueidisprob => /repo/rueidisprob
